@@ -229,6 +229,25 @@ func (fr *Frame) modularCall(ins ssa.Instruction, fn *ssa.Function, fc *FuncCont
 		locs := fx.resolveAssigns(fc, env, pre)
 		fx.checkCalleeFrame(fr, ins, st, calleeName, locs, m)
 		fx.havocWithFrame(st, pre, m, locs)
+		// the new values of the assigned fields are values read from memory at this point: well formed for the
+		// allocation counter reached now (they cannot refer to objects allocated later)
+		for _, key := range sortedKeys(locs.byKey) {
+			for _, l := range locs.byKey[key] {
+				if l.kind != "cell" || l.field < 0 {
+					continue
+				}
+				if _, isStruct := l.typ.Underlying().(*types.Struct); !isStruct || isTimeTime(l.typ) {
+					continue
+				}
+				si := fx.tm.structInfo(l.typ)
+				_, srt := fx.tm.heapKey(l.typ)
+				f := si.Fields[l.field]
+				v := fmt.Sprintf("(%s (select %s %s))", f.Sel, fx.heap(st, key, srt), l.ref)
+				for _, w := range fx.wfFacts(st, f.Type, v, 0) {
+					fx.s.assume(st.guard, w)
+				}
+			}
+		}
 	} else {
 		fx.checkCalleeFrame(fr, ins, st, calleeName, nil, m)
 		fx.havocHeaps(st, m)
